@@ -97,6 +97,39 @@ func ruleMakeSizeNotNegative(c *Ctx, rule string) {
 						}
 					}
 				}
+				// len(m) - len(set), where set is a local map that only ever gets keys found in m: a subset is not larger
+				if !guarded {
+					lx, okx := bo.X.(*ssa.Call)
+					ly, oky := bo.Y.(*ssa.Call)
+					if okx && oky && core.CalleeKey(&lx.Call) == "builtin.len" && core.CalleeKey(&ly.Call) == "builtin.len" {
+						if mm, isLocal := ly.Call.Args[0].(*ssa.MakeMap); isLocal {
+							subset, any := true, false
+							core.EachInstr(fn, func(j ssa.Instruction) {
+								mu, ok := j.(*ssa.MapUpdate)
+								if !ok || mu.Map != ssa.Value(mm) {
+									return
+								}
+								any = true
+								found := false
+								for _, g := range guardsLocal(mu) {
+									ex, ok := g.Cond.(*ssa.Extract)
+									if !ok || !g.Pol || ex.Index != 1 {
+										continue
+									}
+									if lk, ok := ex.Tuple.(*ssa.Lookup); ok && (lk.X == lx.Call.Args[0] || sharesSource(lk.X, lx.Call.Args[0]) || sameFieldLoad(lk.X, lx.Call.Args[0])) && (lk.Index == mu.Key || sharesSource(lk.Index, mu.Key)) {
+										found = true
+									}
+								}
+								if !found {
+									subset = false
+								}
+							})
+							if any && subset {
+								guarded = true
+							}
+						}
+					}
+				}
 				c.R.Check(guarded, rule, fmt.Sprintf("%s:make#%d", core.FuncName(fn), n), c.pos(ms), "the size is known not to be negative", "a slice is made with a size that is the difference of two values with no comparison of the two before it: where the second is the larger (more names in PropertyOrder than there are properties) make panics")
 			}
 		})
